@@ -593,12 +593,25 @@ def run(report, tier):
             return SortedMapSpec(max_init_len, max_update_len), MAP_STATE_CAP
         if which == "set-sparse":
             return SortedSetSpec(1, [], sparse=True), SET_STATE_CAP * 4
+        if which == "set-big":
+            s_ = SortedSetSpec(2, [[], [0]])
+            s_.name = "SortedSet/big-ints"
+            return s_, SET_STATE_CAP
+        if which == "map-big":
+            m_ = SortedMapSpec(1, 1)
+            m_.name = "SortedMap/big-ints"
+            return m_, MAP_STATE_CAP
         return SortedMapSpec(1, 0, sparse=True), MAP_STATE_CAP * 4
 
     def work(which):
         # one exploration per core; each is a complete, deterministic BFS of its own reachable graph
         from mc.report import Report
+        global V, PROBES
         sub = Report("C09", collect_only=True)
+        if which.endswith("-big"):
+            # ints far beyond the range of a float (and the largest floats): still ordinary, orderable keys
+            V = [-(10 ** 400), 0, 1e308, 10 ** 400]
+            PROBES = V + [2 ** 1024, -1.5, 10 ** 400 + 1]
         spec, cap = mk(which)
         n_inits = sum(1 for _ in spec.initials())
         res = explore(spec, sub, max_depth=None, max_states=cap)
@@ -619,7 +632,7 @@ def run(report, tier):
 
     from mc.par import pmap
     results = {}
-    for which, res, d in pmap(work, ["map", "set", "map-sparse", "set-sparse"]):
+    for which, res, d in pmap(work, ["map", "set", "map-sparse", "set-sparse", "map-big", "set-big"]):
         results[which] = res
         report.merge(d)
     # anti-vacuity: the reachable graphs must be the complete ones for the alphabet (unless initialisers failed)
